@@ -240,8 +240,9 @@ class Gen:
         nopt = rng.randint(2, 3)
         keys = rng.sample([0, 1, 2, 3, 4, 9], nopt)
         options = {}
+        all_packets = depth < self.p["max_depth"] and rng.random() < 0.3    # several packet alternatives (A, B, A selections)
         for k in keys:
-            r = rng.random()
+            r = 0.9 if all_packets else rng.random()
             if r < 0.4:
                 o = {"t": "int", "n": rng.choice([1, 2, 3, 4]), "signed": rng.random() < 0.2,
                      "endian": rng.choice(["big", "little"])}
